@@ -61,8 +61,8 @@ def _inheritedDocsources(obj: model.Documentable) -> Iterator[model.Documentable
     name = obj.name
     for interface in obj.parent.allImplementedInterfaces:
         io = obj.system.objForFullName(interface)
-        if io is not None:
-            assert isinstance(io, ZopeInterfaceClass)
+        if isinstance(io, ZopeInterfaceClass):
+            # (what was passed to implementer() might not be a class: this has been reported already)
             for io2 in io.mro():
                 if name in io2.contents:
                     yield io2.contents[name]
